@@ -19,7 +19,10 @@ def heatContract (impl model : Array (Array Fix)) : Option String := Id.run do
       let x := (impl[i]!)[a]!
       let y := (model[i]!)[a]!
       if !(fabs (x - y) ≤ tolPow 36 * fabs y + tolPow 180) then return some s!"exp-contract sample {i} neighbour {a}"
-      if !(0 < x.m) then return some s!"exp-not-positive sample {i} neighbour {a}"
+      if !(0 < x.m) then
+        -- exp underflows to 0 in double below about e^-745 (and below 2^-192 in the driver): not a contract violation
+        if y ≤ tolPow 150 then return some "UNDERFLOW"
+        return some s!"exp-not-positive sample {i} neighbour {a}"
   return none
 
 def rabs (q : Rat) : Rat := if q < 0 then -q else q
@@ -77,6 +80,7 @@ def answerCore (fs : List (String × String)) : E String := do
       if (field? fs "abort").isSome then return "res=FAIL:abort model=ok"
       let heat ← needMat fs "heat" N nb.k
       match heatContract heat m.H with
+      | some "UNDERFLOW" => return "res=SKIP:heat-underflow"
       | some e => return s!"res=BROKEN:oracle-contract {e}"
       | none => pure ()
       let Li ← needMat fs "L" N N
@@ -115,6 +119,7 @@ def answerCore (fs : List (String × String)) : E String := do
         let m := runLap dist width nb
         let heat ← needMat fs "heat" N nb.k
         match heatContract heat m.H with
+        | some "UNDERFLOW" => return "res=SKIP:heat-underflow"
         | some e => return s!"res=BROKEN:oracle-contract {e}"
         | none => pure ()
         if threw != "-" then return s!"res=FAIL:threw what={threw}"
